@@ -116,11 +116,48 @@ pub fn check_b(c: &Spelled, rec: &mut Rec) -> Verdict {
         Ok(b) => b,
         Err(f) => return prefix_sig("C04:B", f, &shape(&v)),
     };
-    diff_verdict_strict_zero("C04:B", &v, &project(&back), &text, rec)
+    let r = diff_verdict_strict_zero("C04:B", &v, &project(&back), &text, rec);
+    if r.is_fail() {
+        return r;
+    }
+    // the other implementation's text usually arrives over a socket: the same sentence through a reader in pieces
+    match zinc_decode_in_pieces(&text) {
+        Ok(b2) => diff_verdict_strict_zero("C04:B:reader", &v, &project(&b2), &text, rec),
+        Err(f) => prefix_sig("C04:B", f, &shape(&v)),
+    }
+}
+
+/// Wide documents: hundreds of sibling values in one list, or one grid with hundreds of rows, the siblings being
+/// small collections - empty and one-row nested grids, empty lists and dicts, scalars.
+fn wide_spelled() -> BoxedStrategy<Spelled> {
+    let small = || {
+        let grid = |rows: Vec<RDict>| RVal::Grid(RGrid { meta: None, cols: vec![RCol { name: "a".into(), meta: None }], rows });
+        prop_oneof![
+            4 => Just(grid(vec![])),
+            2 => Just(grid(vec![[("a".to_string(), RVal::num(1.0))].into_iter().collect()])),
+            1 => Just(RVal::List(vec![])),
+            1 => Just(RVal::Dict(RDict::new())),
+            1 => Just(RVal::List(vec![grid(vec![])])),
+            1 => (0i32..100).prop_map(|i| RVal::num(i as f64)),
+            1 => Just(RVal::Marker),
+        ]
+    };
+    bx((prop::collection::vec(small(), 200..420), any::<bool>(), choices()).prop_map(|(items, as_grid, choices)| {
+        let v = if as_grid {
+            RVal::Grid(RGrid {
+                meta: None,
+                cols: vec![RCol { name: "k".into(), meta: None }, RCol { name: "v".into(), meta: None }],
+                rows: items.into_iter().enumerate().map(|(i, x)| [("k".to_string(), RVal::num(i as f64)), ("v".to_string(), x)].into_iter().collect()).collect(),
+            })
+        } else {
+            RVal::List(items)
+        };
+        Spelled { v, choices }
+    }))
 }
 
 pub fn run(ctx: &mut Ctx) {
-    ctx.rule("A: generated well-formed value -> libhaystack Zinc text -> independent strict grammar reader must accept it and read the same value. B: generated (value, spelling choices) -> independent writer (whitespace, LF/CRLF, string/uri escapes, number spellings with sign/fraction/exponent/'_'/long mantissas, trailing comma, dict separators, marker ':M', grid layout, N vs empty cell, Z vs Z UTC, any unit id) -> libhaystack decoder must read the same value. non-trivial: A not a singleton kind, B at least one non-default spelling choice; distinct by text");
+    ctx.rule("A: generated well-formed value -> libhaystack Zinc text -> independent strict grammar reader must accept it and read the same value. B: generated (value, spelling choices) -> independent writer (whitespace, LF/CRLF, string/uri escapes, number spellings with sign/fraction/exponent/'_'/long mantissas, trailing comma, dict separators, marker ':M', grid layout, N vs empty cell, Z vs Z UTC, any unit id) -> libhaystack decoder must read the same value, from a string and from a reader that delivers the text in pieces; also for wide documents (200-420 sibling small collections - empty and one-row nested grids, empty lists / dicts - in one list or as the cells of one grid). non-trivial: A not a singleton kind, B at least one non-default spelling choice; distinct by text");
     ctx.assume("the reference writer/reader implement DESIGN.md appendix A; spellings the specification leaves open are never written; number denotation = Rust's correctly rounded str::parse::<f64>; unit identifiers from unit-gen/units.txt");
     let depth = ctx.tier.pick(3, 4) as u32;
     // oracle self-test first: failure is an infrastructure problem, not a finding
@@ -135,12 +172,13 @@ pub fn run(ctx: &mut Ctx) {
     }
     ctx.run_sub::<RVal>("zinc-A", ctx.tier.pick(48_000, 960_000), &move || top_value(GenCfg::wf(depth)), &check_a);
     ctx.run_sub::<Spelled>("zinc-B", ctx.tier.pick(48_000, 960_000), &move || spelled(depth), &check_b);
+    ctx.run_sub::<Spelled>("zinc-B-wide", ctx.tier.pick(480, 9_600), &wide_spelled, &check_b);
 }
 
 pub fn replay(kind: &str, case: &J, rec: &mut Rec) -> Verdict {
     match kind {
         "zinc-A" => RVal::from_json(case).map(|v| check_a(&v, rec)).unwrap_or_else(|e| Verdict::fail("infra:bad-replay", e)),
-        "zinc-B" => Spelled::from_json(case).map(|v| check_b(&v, rec)).unwrap_or_else(|e| Verdict::fail("infra:bad-replay", e)),
+        "zinc-B" | "zinc-B-wide" => Spelled::from_json(case).map(|v| check_b(&v, rec)).unwrap_or_else(|e| Verdict::fail("infra:bad-replay", e)),
         "ref-selftest" => Spelled::from_json(case).map(|v| selftest_case(&v, rec)).unwrap_or_else(|e| Verdict::fail("infra:bad-replay", e)),
         _ => Verdict::fail("infra:unknown-kind", kind),
     }
